@@ -502,7 +502,7 @@ func C10(c *core.Ctx) {
 	}
 	c.Floor("R10.3", "sendFrame call sites in sendPacket", len(frames), 1)
 	over := &core.Atom{Name: "len(wire)>effectiveMtu", Match: func(cond ssa.Value) (int, int) {
-		op, x, y, ok := core.Cmp(cond)
+		op, x, y, ok := core.CmpOrient(cond, core.IsLen)
 		if !ok {
 			return 0, 0
 		}
@@ -587,7 +587,7 @@ func C10(c *core.Ctx) {
 				continue
 			}
 			tooBig := &core.Atom{Name: "len(frame)>MTU()", Match: func(cond ssa.Value) (int, int) {
-				op, x, y, ok := core.Cmp(cond)
+				op, x, y, ok := core.CmpOrient(cond, core.IsLen)
 				if !ok {
 					return 0, 0
 				}
@@ -1313,7 +1313,7 @@ func C10(c *core.Ctx) {
 				continue
 			}
 			lt := &core.Atom{Name: "fragIndex<len(slots)", Match: func(cond ssa.Value) (int, int) {
-				op, x, y, ok := core.Cmp(cond)
+				op, x, y, ok := core.CmpOrient(cond, func(v ssa.Value) bool { return core.StripConv(v) == ssa.Value(reas.Params[3]) })
 				if !ok || core.StripConv(x) != ssa.Value(reas.Params[3]) {
 					return 0, 0
 				}
@@ -1605,6 +1605,29 @@ func c10RemovalOnlyWhenDone(c *core.Ctx) {
 		}
 		return false
 	}
+	// the slot table of a message: looked up in the store at the place of use, or a local
+	// holding the result of the lookup made at the top (comma-ok form included), joined
+	// with the freshly made table on the path that creates the entry
+	var fromStore func(v ssa.Value, d int) bool
+	fromStore = func(v ssa.Value, d int) bool {
+		if d > 4 {
+			return false
+		}
+		switch y := core.Strip(v).(type) {
+		case *ssa.Lookup:
+			return isStore(y.X)
+		case *ssa.Extract:
+			lk, isLk := y.Tuple.(*ssa.Lookup)
+			return isLk && y.Index == 0 && isStore(lk.X)
+		case *ssa.Phi:
+			for _, e := range y.Edges {
+				if fromStore(e, d+1) {
+					return true
+				}
+			}
+		}
+		return false
+	}
 	sizeTest := func(cond ssa.Value) bool {
 		_, x, y, ok := core.Cmp(cond)
 		if !ok {
@@ -1615,7 +1638,7 @@ func c10RemovalOnlyWhenDone(c *core.Ctx) {
 				if isStore(l) {
 					return true
 				}
-				if lk, ok := core.Strip(l).(*ssa.Lookup); ok && isStore(lk.X) {
+				if fromStore(l, 0) {
 					return true
 				}
 			}
